@@ -577,6 +577,29 @@ def fault_script(tree, shape, R, rej_files, late=True, entry="cfg", pd=None):
     return s, pre, paths, rej
 
 
+def round_robin(rnd, pools):
+    """one list out of several pools, taking from each in turn (every pool shuffled; a pool given twice gets a double share): every
+    entry point has its share of a budget that covers only the beginning of the list"""
+    seen = {}
+    its = []
+    for p_ in pools:
+        if id(p_) not in seen:
+            q = list(p_)
+            rnd.shuffle(q)
+            seen[id(p_)] = iter(q)
+        its.append(seen[id(p_)])
+    out = []
+    live = True
+    while live:
+        live = False
+        for it in its:
+            v = next(it, None)
+            if v is not None:
+                out.append(v)
+                live = True
+    return out
+
+
 def check_c06(exe, tier, seed, verdict):
     rnd = random.Random(seed)
     mc = core.tlc_ok("MC_Callback", os.path.join(core.SPEC, "MC_Callback.cfg"), timeout=3000)
@@ -590,8 +613,7 @@ def check_c06(exe, tier, seed, verdict):
     scen = []
     budget = 1500 if tier == "quick" else 20000
     r1, recs1, _ = tree_export(1, [], 0, ["bb"])
-    pool = [(x, "std") for x in recs if len(x["log"]) >= 1] + [(x, e) for x in recs2 if len(x["log"]) >= 1 for e in entries2]
-    rnd.shuffle(pool)
+    pool = round_robin(rnd, [[(x, "std") for x in recs if len(x["log"]) >= 1]] * 2 + [[(x, e) for x in recs2 if len(x["log"]) >= 1] for e in entries2])
     # two drop-in directories per layer (CONFIG_DIRS list / econf_set_conf_dirs): a rejection in the first directory must
     # not be forgotten when the second one is read
     r4, recs4, _ = tree_export(3, [3, 6], 4, ["bb"], nd=2)
